@@ -30,11 +30,60 @@ def _alarm(signum, frame):
     raise Timeout()
 
 
+def _worker(conn, items):
+    for i, (text, wc) in enumerate(items):
+        conn.send((i, run_one(text, wc, limit=0)))
+    conn.send(None)
+    conn.close()
+
+
+def run_isolated(items, limit=10):
+    """parse every (text, with_comments) in a forked child; the parent enforces the per-case time limit from outside
+    (a C-level regex match cannot be interrupted by a signal handler); yields (index, result)"""
+    import multiprocessing
+    mp = multiprocessing.get_context('fork')
+    start = 0
+    while start < len(items):
+        parent, child = mp.Pipe(duplex=False)
+        proc = mp.Process(target=_worker, args=(child, items[start:]))
+        proc.start()
+        child.close()
+        done = 0
+        try:
+            while True:
+                if not parent.poll(limit):
+                    proc.kill()
+                    proc.join()
+                    yield start + done, ('timeout',)
+                    done += 1
+                    break
+                try:
+                    msg = parent.recv()
+                except EOFError:
+                    msg = None
+                    if proc.exitcode not in (0, None):
+                        yield start + done, ('other', 'ProcessDied', 'worker exited with %s' % proc.exitcode)
+                        done += 1
+                        break
+                if msg is None:
+                    done = len(items) - start
+                    break
+                i, r = msg
+                done = i + 1
+                yield start + i, r
+        finally:
+            if proc.is_alive():
+                proc.kill()
+            proc.join()
+        start += done
+
+
 def run_one(text, with_comments=False, limit=10):
     from calmjs.parse.parsers.es5 import parse
     from calmjs.parse.exceptions import ECMASyntaxError
-    signal.signal(signal.SIGALRM, _alarm)
-    signal.alarm(limit)
+    if limit:
+        signal.signal(signal.SIGALRM, _alarm)
+        signal.alarm(limit)
     try:
         parse(text, with_comments=with_comments)
         return ('ok',)
@@ -47,7 +96,8 @@ def run_one(text, with_comments=False, limit=10):
     except Exception as e:
         return ('other', type(e).__name__, str(e))
     finally:
-        signal.alarm(0)
+        if limit:
+            signal.alarm(0)
 
 
 MSG_AT = re.compile(r"(?s)^(Unexpected|Illegal character|Mismatched|Error parsing regular expression|Unterminated string literal|"
@@ -117,6 +167,12 @@ def inputs(ctx):
     for _ in range(n3):
         out.append(''.join(rng.choice(LEX_ALPHA) for _ in range(rng.choice([3, 3, 4, 5, 8]))))
     out += corpus.g1_invalid()
+    # long runs of plain characters inside broken literals (catastrophic backtracking shows as a time-out)
+    for n in (24, 40, 64, 200):
+        body = 'abcdefghij' * (n // 10 + 1)
+        body = body[:n]
+        out += ['"' + body, "'" + body, 'x = "' + body + '\\q', "y = '" + body + "\n'", '/' + body, '/[' + body, '/*' + body,
+                'var s = "' + body + '" + "' + body, body + ' "' + body]
     for text, toks, lo in genjs.programs(rng, ctx.n(60, 600), layouts=[genjs.Layout('wild', comments=0.2, comments_at_asi=True,
                                                                                     comments_before_regex=True, unicode_terms=True,
                                                                                     unicode_space_before_regex=True)]):
@@ -139,13 +195,11 @@ def run(ctx):
                     'implementation non-termination is only excluded by the per-case time limit (no theorem that the fuel suffices)']
     ctx.assumptions += ['well-formed Unicode scalar sequences; Python recursion limit not modelled (deeply nested inputs are not generated)']
     texts = inputs(ctx)
-    if getattr(ctx, 'drivers_ok', True):
-        rng = ctx.sub_rng('tie')
-        parsetie.full_tie(ctx, rng.sample(texts, min(len(texts), ctx.n(1500, 12000))))
     nbad = 0
-    for text in texts:
-        for wc in (False, True):
-            r = run_one(text, wc)
+    items = [(text, wc) for text in texts for wc in (False, True)]
+    for idx, r in run_isolated(items, limit=10):
+        if True:
+            text, wc = items[idx]
             ctx.case((wc, text), nontrivial=len(text) > 1)
             ctx.bump('outcome:' + r[0] + (':' + r[1] if r[0] in ('syntax', 'other') else ''))
             if r[0] in ('ok',):
@@ -167,6 +221,10 @@ def run(ctx):
                           dict(text=text, with_comments=wc, outcome=r))
             return
     ctx.sample(dict(text=texts[len(texts) // 2][:80], outcome=run_one(texts[len(texts) // 2])[0]))
+    # the tie runs the implementation in-process, so it comes after the isolated judge has shown that every input terminates
+    if getattr(ctx, 'drivers_ok', True):
+        rng = ctx.sub_rng('tie')
+        parsetie.full_tie(ctx, rng.sample(texts, min(len(texts), ctx.n(1500, 12000))))
 
 
 def position_known(ctx, text, complaint):
